@@ -981,3 +981,46 @@ func (m *Machine) adoptPending(h *wenv.WalletH) {
 	}
 	m.pendExp[h.Name] = exp
 }
+
+// Exec runs a named operation (used by directed tests); returns false if its precondition did not hold.
+func (m *Machine) Exec(t *rapid.T, op string) bool {
+	m.T = t
+	m.Detail = ""
+	ok := m.exec(t, op)
+	if ok {
+		m.Count[op]++
+		if m.Detail == "" {
+			m.Detail = op
+		}
+		m.Invariants(m.Detail)
+	}
+	return ok
+}
+
+// MaxStoredCounter returns the highest stored keyset counter of the wallet over all mints.
+func (m *Machine) MaxStoredCounter(h *wenv.WalletH) uint32 {
+	var max uint32
+	for _, w := range m.E.Mints {
+		for _, id := range w.KSOrder {
+			if c := h.Inner().GetKeysetCounter(id); c > max {
+				max = c
+			}
+		}
+	}
+	return max
+}
+
+// Live returns the wallets that are in use.
+func (m *Machine) Live() []*wenv.WalletH { return m.live() }
+
+// ExpectedRestorable exposes the independent computation of the restorable value (C19 crash enumeration).
+func (m *Machine) ExpectedRestorable(h *wenv.WalletH, mints []string) (uint64, map[string]int, error) {
+	return m.expectedRestorable(h, mints)
+}
+
+// AddToken registers proofs handed out by a wallet as a token the harness holds.
+func (m *Machine) AddToken(mint string, proofs cashu.Proofs, from string) *Token {
+	tk := &Token{Mint: mint, Proofs: proofs, From: from, Kind: "plain", DLEQ: true}
+	m.addToken(tk)
+	return tk
+}
